@@ -163,6 +163,34 @@ def bendPairs (t : Table) (pre post : List Int) (b : Int) : Nat :=
   ((childPairs t b).flatMap fun p =>
     (product post pre).filter fun q => isDistal t p.1 q.1 && isDistal t p.2 q.2).length
 
+/-! ### bending flow and leaf flow: explicit path-count specifications -/
+
+/-- The tree path from `p` to `q` **bends at** `b`: `b` is the apex of the path (the lowest common
+ancestor of its ends) and neither of its ends — both legs are non-empty, i.e. the path climbs into `b`
+out of one child branch and descends into another. -/
+def bendsAt (t : Table) (b p q : Int) : Bool :=
+  match lca t p q with
+  | some l => l == b && !(legUp t p q).isEmpty && !(legUp t q p).isEmpty
+  | none => false
+
+/-- Number of (postsynapse, presynapse) pairs whose tree path bends at `b`. -/
+def bendSpec (t : Table) (pre post : List Int) (b : Int) : Nat :=
+  ((product post pre).filter fun x => bendsAt t b x.1 x.2).length
+
+/-- Number of ordered (leaf, leaf) pairs whose tree path leaves `n` towards its parent ("tip-to-tip paths
+through `n`", each unordered pair counted once: exactly one of its two orientations ascends through `n`). -/
+def tipPaths (t : Table) (n : Int) : Nat := pathsUp t (leafIds t) (leafIds t) n
+
+/-- What `flow_centrality` should return by the property (and what the repaired code would compute): the
+tip-path count at every node, forks taking their largest child's count.  It is `synapse_flow_centrality`
+(centripetal) of the neuron that carries one pre- and one postsynapse on every leaf. -/
+def fcSpec (t : Table) (n : Int) : Nat :=
+  if isFork t n then maxList ((children t n).map (tipPaths t)) else tipPaths t n
+
+/-- `n` lies on a terminal twig as `flow_centrality` sees it: the unbranched chain below `n` does not end in
+a branch point (`type == "branch"`), so the code seeds the segment with 0. -/
+def seedIsFork (t : Table) (n : Int) : Bool := isFork t (chainSeed t (t.length + 1) n)
+
 /-! ### segregation index -/
 
 structure Frag where
@@ -211,6 +239,36 @@ def segExact (fs : List Frag) : Option Nat :=
   else if fs.all (fun f => f.pre == 0 || f.post == 0) then some 1
   else if fs.all (fun f => f.post * (tp + tq) == tq * f.tot) then some 0
   else none
+
+/-! ### segregation index, generic in the number type
+
+The same three definitions with the arithmetic left abstract (core type classes only, so the file stays
+import-free).  At `K = Rat` they *are* `fragEntropy` / `meanEntropy` / `segIdx` (by `rfl`, below): the
+executable model.  At `K = ℝ` with `H p = −(p·ln p + (1−p)·ln(1−p))` they are the function navis evaluates in
+floating point; `Props/C17.lean` proves the bounds and the exact cases for that instance (Mathlib's real
+logarithm is only imported by the proof file). -/
+section Generic
+variable {K : Type} [Add K] [Sub K] [Mul K] [Div K] [Zero K] [One K] [NatCast K] [LT K] [DecidableLT K]
+
+def fragEntropyG (H : K → K) (f : Frag) : K :=
+  if f.tot = 0 then 0 else
+  let p : K := (f.post : K) / (f.tot : K)
+  if 0 < p ∧ p < 1 then H p else 0
+
+def meanEntropyG (H : K → K) (fs : List Frag) : K :=
+  (1 / ((totPre fs + totPost fs : Nat) : K)) * ((fs.map fun f => fragEntropyG H f * (f.tot : K)).sum)
+
+def segIdxG (H : K → K) (fs : List Frag) : Option K :=
+  let tot := totPre fs + totPost fs
+  if tot = 0 then none else
+  let pn : K := (totPost fs : K) / (tot : K)
+  if 0 < pn ∧ pn < 1 then some (1 - meanEntropyG H fs / H pn) else some 0
+
+end Generic
+
+theorem fragEntropy_eq_G (H : Rat → Rat) (f : Frag) : fragEntropy H f = fragEntropyG H f := rfl
+theorem meanEntropy_eq_G (H : Rat → Rat) (fs : List Frag) : meanEntropy H fs = meanEntropyG H fs := rfl
+theorem segIdx_eq_G (H : Rat → Rat) (fs : List Frag) : segIdx H fs = segIdxG H fs := rfl
 
 /-! ### tortuosity, squared form -/
 
@@ -262,6 +320,18 @@ def exactEdgesB (t : Table) : Bool :=
 /-- `v` obeys the Strahler recurrence at every row (roots included). -/
 def strahlerOKB (t : Table) (greedy : Bool) (v : Int → Nat) : Bool :=
   t.all fun r => v r.id == strahlerRule greedy ((children t r.id).map v)
+
+/-- One small segment passes the "ignored twigs take their parent branch's index" test: if it is seeded at an
+ignored leaf and ends in a branch point (≥ 2 children, root or not), all its nodes carry the branch point's value. -/
+def twigOKB (t : Table) (eff : List Int) (v : Int → Nat) (s : List Int) : Bool :=
+  match s.head?, s.getLast? with
+  | some h, some e =>
+    if eff.contains h && childCount t h == 0 && decide (2 ≤ childCount t e) then s.dropLast.all (fun x => v x == v e) else true
+  | _, _ => true
+
+/-- Checker evaluated on the implementation's column: every ignored twig carries the index of the branch it hangs on. -/
+def ignoredTwigsOKB (t : Table) (eff : List Int) (v : Int → Nat) : Bool :=
+  (smallSegments t).all (twigOKB t eff v)
 
 /-- Lookup in an association list from the wire (`default` for missing ids). -/
 def lookup (kv : List (Int × Nat)) (dflt : Nat) (i : Int) : Nat :=
